@@ -26,6 +26,7 @@ type mRoute struct {
 	Req    string // concrete request path
 	Chain  []int  // group..., route..., main
 	Bare   string // the route's own path without any group prefix (concrete), "" at top level
+	Any    bool   // registered for all methods
 }
 
 type mResult struct {
@@ -71,6 +72,7 @@ func modelProgram(prog []refmodel.Stmt) *mResult {
 				main := ids.Take(1)
 				later := ids.Take(s.K2)
 				addRoute("GET", prefix, fmt.Sprintf("/r%d", rn), cat(cat(cat(group, mids...), later...), main...))
+				res.Routes[len(res.Routes)-1].Any = s.Via == "any"
 				rn++
 			case "notfound":
 				res.NotFound = ids.Take(s.K)
@@ -181,8 +183,18 @@ func execProgram(prog []refmodel.Stmt, sentinel bool) (pr *progRun_, pv any) {
 					mids := mk(s.K)
 					main := mkMain(1)
 					later := mk(s.K2)
-					rt := r.GET(fmt.Sprintf("/r%d", rn), main[0], mids...)
+					path := fmt.Sprintf("/r%d", rn)
 					rn++
+					var rt *rux.Route
+					switch s.Via {
+					case "any":
+						r.Any(path, main[0], mids...)
+					case "attach":
+						rt = rux.NewRoute(path, main[0], "GET").Use(mids...)
+						rt.AttachTo(r)
+					default:
+						rt = r.GET(path, main[0], mids...)
+					}
 					if len(later) > 0 {
 						rt.Use(later...)
 					}
@@ -234,7 +246,7 @@ func progString(prog []refmodel.Stmt) string {
 				w(s.Body)
 				sb.WriteString("}")
 			case "route":
-				fmt.Fprintf(&sb, "Route(mw=%d,laterUse=%d)", s.K, s.K2)
+				fmt.Fprintf(&sb, "Route%s(mw=%d,laterUse=%d)", map[string]string{"": "", "any": ":Any", "attach": ":NewRoute+Use+AttachTo"}[s.Via], s.K, s.K2)
 			case "controller", "resource":
 				fmt.Fprintf(&sb, "%s(%q,mw=%d)", s.Kind, s.Prefix, s.K)
 			default:
@@ -384,7 +396,7 @@ func progRun(c progCase, mode string, st *fw.Stats) []fw.Viol {
 			add("order:notfound-status", fmt.Sprintf("program [%s]: default not-found handler should answer 404, got %d", ps, code))
 		}
 		for _, rt := range m.Routes {
-			if rt.Method == "GET" && !strings.Contains(rt.Path, "{") {
+			if rt.Method == "GET" && !rt.Any && !strings.Contains(rt.Path, "{") {
 				st.Evals++
 				want := chainEvents(append(append([]int{}, m.Global...), m.NotAllowed...))
 				got, code, pv := request("POST", rt.Req)
@@ -418,12 +430,13 @@ func progVariants(mode string, depth int, inGroup bool) []refmodel.Stmt {
 		for _, kk := range [][2]int{{0, 0}, {1, 0}, {2, 0}, {0, 1}, {1, 1}} {
 			v = append(v, refmodel.Stmt{Kind: "route", K: kk[0], K2: kk[1]})
 		}
+		v = append(v, refmodel.Stmt{Kind: "route", K: 1, Via: "any"}, refmodel.Stmt{Kind: "route", K: 2, K2: 1, Via: "attach"})
 		if !inGroup {
 			v = append(v, refmodel.Stmt{Kind: "notfound", K: 1}, refmodel.Stmt{Kind: "notfound", K: 2}, refmodel.Stmt{Kind: "notallowed", K: 1})
 		}
 	} else {
 		v = append(v, refmodel.Stmt{Kind: "use", K: 1})
-		v = append(v, refmodel.Stmt{Kind: "route", K: 0}, refmodel.Stmt{Kind: "route", K: 1, K2: 1})
+		v = append(v, refmodel.Stmt{Kind: "route", K: 0}, refmodel.Stmt{Kind: "route", K: 1, K2: 1}, refmodel.Stmt{Kind: "route", K: 1, Via: "attach"})
 		v = append(v, refmodel.Stmt{Kind: "controller", Prefix: "/c", K: 0}, refmodel.Stmt{Kind: "controller", Prefix: "/c", K: 1, Spare: true})
 		v = append(v, refmodel.Stmt{Kind: "resource", Prefix: "/", K: 0}, refmodel.Stmt{Kind: "resource", Prefix: "/api/", K: 1})
 	}
